@@ -354,6 +354,46 @@ def run(chk: Check) -> None:
             chk.fail("stream-overread", f"{raw.consumed} bytes consumed with max_content_length={mcl}", {"body_len": len(body), "mcl": mcl})
         if res == "ok" and (with_len or terminated) and form != _group(parse_qsl(body.decode(), keep_blank_values=True)):
             chk.fail("limits-change-result", "request form differs from the plain parse", {"body": body.hex(), "mcl": mcl})
+    # parse_form_data(environ, max_content_length=N) / FormDataParser.parse_from_environ: a server-terminated stream
+    # (no usable Content-Length) is read at most N bytes; longer bodies raise RequestEntityTooLarge
+    from werkzeug.formparser import parse_form_data
+    for i in range(200 if quick else 3000):
+        mcl = rng.choice([5, 20, 60])
+        kind = rng.choice(["urlencoded", "multipart"])
+        size = rng.choice([0, 3, mcl - 1, mcl, mcl + 1, mcl * 3])
+        if kind == "urlencoded":
+            body = (b"a=" + b"x" * max(0, size - 2))[:size] if size >= 2 else b"a"[:size]
+            ctype = "application/x-www-form-urlencoded"
+        else:
+            body = b"--b\r\nContent-Disposition: form-data; name=\"a\"\r\n\r\n" + b"x" * size + b"\r\n--b--\r\n"
+            ctype = "multipart/form-data; boundary=b"
+        declared = rng.choice(["absent", "absent", "chunked", "exact"])
+        raw = SchedStream(body, [rng.choice([0, 2, 7]) for _ in range(5)])
+        env = {"REQUEST_METHOD": "POST", "CONTENT_TYPE": ctype, "wsgi.input": raw, "wsgi.input_terminated": True,
+               "SERVER_NAME": "x", "SERVER_PORT": "80", "wsgi.url_scheme": "http"}
+        if declared == "exact":
+            env["CONTENT_LENGTH"] = str(len(body))
+        elif declared == "chunked":
+            env["HTTP_TRANSFER_ENCODING"] = "chunked"
+        try:
+            _, form, files = parse_form_data(env, max_content_length=mcl, silent=False)
+            res = "ok"
+        except RequestEntityTooLarge:
+            res = "413"
+        except Exception as e:  # noqa: BLE001
+            res = type(e).__name__
+        chk.case(("pfd", kind, size, mcl, declared), True)
+        chk.count("parse_form_data:" + res)
+        if res == "ok" and len(body) > mcl and len(form) + len(files) > 0:
+            # urlencoded with max_form_memory_size=None reads with stream.read(): LimitedStream(is_max) stops silently at the
+            # maximum (the C09 finding max-unbounded-read-truncates); every other path must raise
+            chk.fail("terminated-urlencoded-read-all-truncates" if kind == "urlencoded" and raw.consumed <= mcl + 1
+                     else "parse-form-data-max-content-length-ignored",
+                     f"parse_form_data(max_content_length={mcl}) parsed a {len(body)}-byte {kind} body ({declared} length)",
+                     {"kind": kind, "body_len": len(body), "max_content_length": mcl, "declared": declared})
+        if raw.consumed > mcl + 1 and len(body) > mcl:
+            chk.fail("stream-overread", f"{raw.consumed} bytes consumed by parse_form_data with max_content_length={mcl}",
+                     {"kind": kind, "body_len": len(body), "max_content_length": mcl, "declared": declared})
     # request-level limits travel through Request.make_form_data_parser: 0, small, None
     for i in range(200 if quick else 3000):
         mfp = rng.choice([None, 0, 1, 2, 5])
